@@ -38,6 +38,7 @@ type ObligationEvidence struct {
 	CRCAxiomInstances  int            `json:"crc_axiom_instances,omitempty"`
 	DistinctPrograms   int            `json:"distinct_choice_vectors"`
 	Unreplayed         int            `json:"violation_groups_not_replayed,omitempty"`
+	Cross              []CrossResult  `json:"cross_solver,omitempty"`
 }
 
 type ViolationEvidence struct {
